@@ -101,7 +101,8 @@ FinishFile(st) ==
 BDocs == IF Includes = "none" THEN {<<>>}
          ELSE {<<>>, <<"I">>, <<"Ha", "I">>, <<"I", "IC">>, <<"IM">>, <<"Hs", "IB">>, <<"Hunk">>, <<"C", "MLs", "Hs", "MLe">>,
                <<"Hact", "X">>, <<"I", "MLs">>}
-CDocs == IF Includes = "none" THEN {<<>>} ELSE {<<"I">>, <<"Hc", "I", "X">>}
+\* (C lives in a sub directory: a cycle through it is a cycle of files named by paths with ".." in them)
+CDocs == IF Includes = "none" THEN {<<>>} ELSE {<<"I">>, <<"Hc", "I", "X">>, <<"IM">>, <<"Hs", "IB">>}
 
 VARIABLES doc,     \* the lines of the main file read so far
           st,      \* the reader's state
